@@ -1,7 +1,7 @@
 (* C18 -- a failing generator is reported, never fatal, and never half-trusted.  Statements only; proofs in Driver/MainProofs.v
    and Codec/ReplyProofs.v (models: Driver/Main.v, Codec/Reply.v). *)
 From Coq Require Import List Bool NArith ZArith Arith.
-From SliceV Require Import Base.Bytes Base.Utf8 Codec.Wire Codec.Reply Codec.ReplyProofs Sema.Lints Driver.Main Driver.MainProofs.
+From SliceV Require Import Base.Bytes Base.Utf8 Codec.Wire Codec.Reply Codec.ReplyProofs Codec.PrefixProofs Sema.Lints Driver.Main Driver.MainProofs.
 Import ListNotations.
 Local Open Scope nat_scope.
 
@@ -33,3 +33,13 @@ Theorem C18_reply_wellformed : forall bs fs ds r, dec_reply bs = DOk (fs, ds) r 
   Forall (fun f => utf8_valid (gf_path f) = true /\ utf8_valid (gf_contents f) = true) fs /\
   Forall (fun d => (gd_level d <= 2)%N /\ utf8_valid (gd_message d) = true) ds.
 Proof. exact reply_files_wellformed. Qed.
+(* a reply cut anywhere inside the part the decoder reads (exit status 0, nothing on stderr) is reported for that generator as
+   a decoding error and no file of it is written; what follows the consumed part does not matter *)
+Theorem C18_truncated_reply_rejected : forall bs v r, dec_reply bs = DOk v r ->
+  forall k, k < length bs - length r -> exists e, dec_reply (firstn k bs) = DErr e /\ e <> EFuel.
+Proof. exact truncated_reply_rejected. Qed.
+Theorem C18_truncated_reply_reported : forall fs out v r k, dec_reply out = DOk v r -> k < length out - length r ->
+  exists e, run_generator fs (BRuns true false (Some 0%Z) (firstn k out)) = failed (GeDecode e) /\ e <> EFuel.
+Proof. exact truncated_reply_reported. Qed.
+Theorem C18_reply_independent_of_trailing_bytes : forall bs v r x, dec_reply bs = DOk v r -> dec_reply (bs ++ x) = DOk v (r ++ x).
+Proof. exact reply_ext. Qed.
